@@ -2,24 +2,35 @@
 
 Oracle: reference encoders written from the manufacturers' instruction-set
 definitions (vf/model/isa_*.py: one table mnemonic x operand form -> encoder
-per ISA).  A case takes a slice of one CPU's form table, generates operand
-sets for every form (0, both field limits, limits+-1, byte-boundary values,
-random interior values; branch targets at every distance limit-2..limit on
-both sides) and assembles
+per ISA; never derived from the AS sources).  A case takes a slice of one
+CPU's form table, generates operand sets for every form (0, both field
+limits, limits+-1, byte-boundary values, random interior values; every
+register / condition of an enumerated operand; branch targets at every
+distance limit-2..limit on both sides, same-page targets at both page ends
+and with the instruction in the last units of a page) and assembles
 
   * one file of legal lines: every line must emit exactly the reference
     bytes at the reference address (per-line association through the
-    emission events of hook H3; the whole image is then compared with the
-    code file read by the independent reader), without any error;
-  * one file of illegal lines (one operand at limit+1 / limit-1, a branch at
-    limit+1 / limit+2): every such line must raise an error diagnostic at its
-    own line (hook H4) and emit nothing; the run must end with status 2 and
-    must not leave a code file.
+    emission events of hook H3) without any error; the whole image is then
+    compared with the code file read by the independent reader;
+  * one file of illegal lines (one operand one step outside its encodable
+    range, a branch at limit+1 / limit+2, a register or combination the
+    instruction set does not have): every such line must raise an error
+    diagnostic at its own line (hook H4); the run must end with status 2 and
+    must not leave a code file.  Lines that were accepted are assembled once
+    more among themselves (a name taken for a forward reference is only
+    reported in pass 2, which does not happen when pass 1 had errors) before
+    they are called accepted.
 
 PC-relative fields are computed by the model from the *target address* that
-was written in the source (as absolute number or as PC-relative expression),
-so an encoding that does not decode back to the referenced address differs
-from the model.
+was written in the source (absolute number or PC-relative expression), so an
+encoding that does not decode back to the referenced address differs from the
+model.
+
+Violation keys: <family>:<form template>:<kind>[:<field>:<operand class>],
+kind in wrong-encoding, wrong-length, legal-form-rejected, no-code-emitted,
+out-of-range-accepted, out-of-range-silently-dropped; crashes keep the
+sanitizer key of the framework.
 """
 import importlib
 import re
@@ -29,26 +40,30 @@ from ..model import isa_common
 
 ID = 'C14'
 LEVEL = 'exploration'
-REGISTERED = False
+REGISTERED = True
 
 ISA_MODULES = ('isa_6502', 'isa_8080', 'isa_z80', 'isa_4004', 'isa_pic16', 'isa_msp430', 'isa_avr')
 
-RULE = ('case = slice of one CPU\'s instruction-form table (mnemonic x addressing mode x register) x operand sets per form '
-        '(0, limits, limits+-1, byte-boundary values, random interior; branch distances limit-2..limit+2 on both sides); '
+RULE = ('case = slice of one CPU\'s instruction-form table (mnemonic x addressing mode x register; 17 CPU variants of 7 families, 4011 forms, 2047 distinct) x operand sets per form '
+        '(0, limits, limits+-1, byte-boundary values, 3 (quick) / 40 (thorough) random interior sets, every enumerated register/condition, full cross product of the '
+        'enumerated operands up to 1100 combinations in thorough; branch distances limit-2..limit+2 on both sides, same-page targets at both page ends); '
         'legal and out-of-range lines are assembled in separate files; distinct = distinct (cpu, form, operand class per field); '
-        'non-trivial = the line reached a verdict (bytes compared, or rejection observed)')
+        'non-trivial = the line reached a verdict (bytes compared with the reference, or rejection observed)')
 ASSUMPTIONS = ['the reference tables in vf/model/isa_*.py transcribe the manufacturers\' opcode tables correctly (cross-checked against the golden images of t_65, t_85, t_z80syntax, t_z180io, t_msp, t_16c84, t_avr, t_4004 during development)',
                'an address 0..255 selects the zero-page/direct form where the ISA has one (AS manual: short addressing is chosen automatically)',
-               'an 8-bit immediate accepts -128..255, a 16-bit one -32768..65535 (both signed and unsigned reading are encodable)',
+               'an n-bit immediate is encodable from -2^(n-1) to 2^n-1 (signed and unsigned reading); only values outside both readings are demanded to be rejected',
+               'a rejected line is one with an error diagnostic at its line, status 2 and no code file; bytes a code generator still passes to the output stage after its own error (MSP430 back end) are recorded, not judged',
                'hook H3 attributes emitted bytes to the source line being assembled, hook H4 diagnostics to the line they are reported for']
 MANIFEST = dict(
     category='exploration', design_ref='DESIGN.md §4 C14',
     technique='reference-model monitor: independent per-ISA encoders (tables written from the manufacturers\' instruction-set definitions) judge every emitted line (hook H3 line<->bytes association, code file read by the independent reader) and every rejected line (hook H4)',
-    text='Held on the executions of this run: for every form of the reference tables, operands at 0, both limits, limits+-1 and random interior values, and branches at every '
+    text='Held on the executions of this run: for every form of the reference tables (6502/65SC02/65C02/W65C02S, 8080/8085 in Intel and Zilog syntax, Z80/Z180, 4004/4040, PIC16C84, MSP430 core + emulated, '
+         'AVR AT90S8515/ATmega8/ATmega16), operands at 0, both limits, limits+-1 and random interior values, every register, and branches at every '
          'distance within 2 of both displacement limits, the assembler emitted exactly the reference bytes at the reference address, and every operand one step outside the encodable range '
-         'was rejected with an error at its line without emitting anything.',
-    note='Trusts the reference tables (documented instruction sets only; no undocumented opcodes, no macro-like convenience forms beyond those tabulated), and hooks H3/H4 for the line association. '
-         'Negative addresses and other operand spellings on which the manual is silent are not generated.')
+         'was rejected with an error at its line (status 2, no code file).',
+    note='Trusts the reference tables (documented instruction sets only; no undocumented opcodes, no convenience forms beyond those tabulated) and hooks H3/H4 for the line association. '
+         'Operand spellings on which the manual is silent are not generated (negative addresses, JMP ($xxFF) on the 6502, R3 and 0(Rn) sources on the MSP430, TRIS 7 on the 16C84, '
+         'cross-page GOTO/CALL on the PIC, RST operands that are not restart addresses ...); each such restriction is commented in the ISA module.')
 
 _ISAS = None
 
@@ -114,8 +129,11 @@ def norm_tmpl(t):
 
 def assemble(ctx, isa, cpu, tag, lines):
     """place and assemble `lines`; -> (Asm, {source line number: Line}) or (None, reason)"""
-    isa_common.place(lines, isa, ctx.rng, space=getattr(isa, 'SPACE_OF', {}).get(cpu))
+    syms = {}
+    isa_common.place(lines, isa, ctx.rng, space=getattr(isa, 'SPACE_OF', {}).get(cpu), syms=syms)
     src = list(isa.prologue(cpu)) if hasattr(isa, 'prologue') else ['\tcpu\t%s' % cpu]
+    for v, name in syms.items():
+        src.append('%s\tequ\t%d' % (name, v))
     src.append('\torg\t%d' % isa.ORG)
     lineno = {}
     for ln in lines:
